@@ -235,6 +235,12 @@ def main():
             harness_errors.append(f"{r['subcheck']}[{r['shard']}]: "
                                   + r['harness_error'])
         violations.extend(r['violations'])
+        for tc in r.get('case_timeouts', []):
+            d_ = os.path.join(VERIF, 'replays', prop, 'timeouts')
+            os.makedirs(d_, exist_ok=True)
+            with open(os.path.join(d_, f"{r['subcheck']}-{case_hash(tc)}.json"), 'w') as f_:
+                json.dump({'property': prop, 'subcheck': r['subcheck'],
+                           'assertion': 'case_timeout', 'case': tc}, f_)
     for fid in known_counts:
         known_lines[fid] = next(e['what'] for e in findings.entries()
                                 if e['id'] == fid)
